@@ -300,6 +300,13 @@ def run(ctx):
         'property keys are str; property columns are 1-d arrays of bool/int/float/str dtype (object columns are pickled by NumPy and not generated)',
         'text export: names without line breaks (a line break in a name would split the row; none generated)',
         'levels are Python ints within int64 or None']
+    if ok and not ctx.quick:
+        # independent re-check of the compiled theorems by the stand-alone checker
+        rc, out = core.sh('timeout 900 coqchk -silent -o -Q theories E3FP E3FP.Properties.C08 2>&1', cwd=core.COQ, timeout=960)
+        clean = rc == 0 and 'Axioms: <none>' in out.replace('\n  \n', ' ').replace('\n', ' ').replace('  ', ' ')
+        ctx.notes.append('coqchk -o E3FP.Properties.C08: rc=%d, %s' % (rc, 'no axioms, no type-in-type, no unsafe fixpoints' if clean else out[-600:]))
+        if rc != 0:
+            ctx.fail('coqchk rejects the compiled Properties/C08', {'log_tail': out[-3000:]}, no_input=True, kind='proof-obligation')
     if not ok:
         core.report_broken_proof(ctx, res, found_input)
 
